@@ -996,7 +996,16 @@ class Parser:
             # Custom recovery provided during parser construction
             if debug:
                 prints("\tDoing custom error recovery.")
+            position, token_ahead = head.position, head.token_ahead
             successful = self.error_recovery(head, error, self.default_error_recovery)
+            if (
+                successful
+                and head.position != position
+                and head.token_ahead is token_ahead
+            ):
+                # The strategy moved the head and left the lookahead alone.
+                # The stale lookahead must be scanned again.
+                head.token_ahead = None
 
         # The recovery may either decide to skip erroneous part of
         # the input and resume at the place that can continue or it
